@@ -183,12 +183,18 @@ theorem exchangeSort_spec (lt : α → α → Bool) (hlt : StrictWeak lt) (P R S
   match R with
   | [] =>
     refine ⟨[], ?_, List.Perm.refl _, List.Pairwise.nil⟩
-    have : P.length + ([] : List α).length - 1 - P.length = 0 := by simp
-    rw [this]
-    unfold exchangeOuter
-    rfl
+    simp
   | c :: T =>
-    have : P.length + (c :: T).length - 1 - P.length = T.length := by simp only [List.length_cons]; omega
+    have hne : (P.length == P.length + (c :: T).length) = false := by simp
+    have hp : prevR P.length (P.length + (c :: T).length) (P.length + (c :: T).length)
+        = .ok (P.length + T.length) := by
+      unfold prevR
+      rw [if_pos (by simp)]
+      simp only [List.length_cons]
+      rfl
+    rw [hne, hp]
+    simp only [Bool.false_eq_true, if_false, ok_bind]
+    have : P.length + T.length - P.length = T.length := by omega
     rw [this]
     have := bubble_exchOuter lt hlt P S T.length [] (c :: T) P.length (P.length + (c :: T).length)
       (by simp) (by simp) (by simp) List.Pairwise.nil (by simp)
